@@ -8,6 +8,7 @@
    [c : cfg] says whether a refused registration undoes the parent assignment; [cur] (generated/C06Cfg.v) is what the
    checked tree does (behavioural probe on every run).                                                               *)
 From GV Require Import Prelude.Base Model.Registry Proofs.RegistryProofs Proofs.RegistryTheorems.
+From GV Require Import Proofs.RegistryTypes Proofs.RegistryChildren Proofs.RegistryCopy.
 From GVgen Require Import C06Cfg.
 
 (* 0. the checked tree undoes the parent assignment of a refused creation; fails on a tree without the repair *)
@@ -122,6 +123,82 @@ Proof. exact refused_rollback_detached. Qed.
 Print Assumptions C06_refused_creation_rolled_back.
 
 (* ------------------------------------------------------------------------------------------------------------------
+   7. END TO END.  (a) children and property-group lists only name existing instances (all histories). *)
+Theorem C06_children_name_existing_instances : forall c h, chb (run c init h).
+Proof. exact reachable_chb. Qed.
+Print Assumptions C06_children_name_existing_instances.
+
+(* (b) one type per class, as an invariant of reachable states: two live groups / objects of one class and workspace hold
+       the same type instance, which is alive and is the one registered under the class's identifier *)
+Theorem C06_one_type_per_class : forall c h e1 e2,
+  let w := run c init h in
+  e1 < n w -> e2 < n w -> alive w e1 = true -> alive w e2 = true ->
+  is_go (ekind (E w e1)) -> is_go (ekind (E w e2)) ->
+  ews (E w e1) = ews (E w e2) -> ecls (E w e1) = ecls (E w e2) ->
+  etype (E w e1) = etype (E w e2)
+  /\ alive w (etype (E w e1)) = true /\ ekind (E w (etype (E w e1))) = KType.
+Proof. exact one_type_per_class. Qed.
+Print Assumptions C06_one_type_per_class.
+
+Theorem C06_typed_invariant : forall c h, good (run c init h) /\ typed (run c init h).
+Proof. exact reachable_typed. Qed.
+Print Assumptions C06_typed_invariant.
+
+(* (c) refusal at operation level, with the rollback repair: a creation under the identifier of a live registered instance
+       of the same kind, class and workspace returns Refused; exactly one instance was allocated and it is dead; every
+       earlier record, every registry, the flat containers, the uuid4 counter and the liveness of every earlier entity
+       are unchanged *)
+Theorem C06_refused_create_unchanged : forall c h ws (isobj : bool) parent e0,
+  rollback c = true ->
+  let w := run c init h in
+  owner w e0 -> ews (E w e0) = ws ->
+  ekind (E w e0) = (if isobj then KObject else KGroup) -> ecls (E w e0) = (if isobj then 2 else 1) ->
+  usable w parent KGroup = true -> ews (E w parent) = ws ->
+  let r := step c w (OCreate ws isobj parent (USame e0)) in
+  snd r = Refused /\ n (fst r) = S (n w) /\ alive (fst r) (n w) = false
+  /\ (forall y, y < n w -> E (fst r) y = E w y)
+  /\ (forall ws' k', R (fst r) ws' k' = R w ws' k')
+  /\ (forall ws', flat (fst r) ws' = flat w ws') /\ fresh (fst r) = fresh w
+  /\ (forall y, y < n w -> ekind (E w y) <> KType -> alive (fst r) y = alive w y).
+Proof. exact refused_create_unchanged. Qed.
+Print Assumptions C06_refused_create_unchanged.
+
+(* (d) the copy rule for the operation OCopy as a whole (the entity, each copied data child, each property group): every
+       registered instance the copy creates lives in the target workspace and carries either a brand-new identifier or
+       the identifier of one of its source pieces that nobody held there ([nohold]; for a property group: no property
+       group held it -- its registry is the only one asked, which is the open cross-kind finding) *)
+Theorem C06_copy_end_to_end : forall c h e target,
+  let w := run c init h in
+  let w' := fst (step c w (OCopy e target)) in
+  forall x, n w <= x < n w' -> ekind (E w' x) <> KType -> ereg (E w' x) = true ->
+    ews (E w' x) = ews (E w target)
+    /\ (fresh w <= euid (E w' x)
+        \/ exists s, In s (pieces w e (ekind (E w' x))) /\ euid (E w' x) = euid (E w s)
+                     /\ nohold w (ews (E w target)) (euid (E w s)) (ekind (E w' x))).
+Proof. exact copy_end_to_end. Qed.
+Print Assumptions C06_copy_end_to_end.
+
+(* same workspace: the source pieces hold their identifiers there, so everything the copy registers is fresh *)
+Theorem C06_copy_all_fresh_when_held : forall c h e target,
+  let w := run c init h in
+  let w' := fst (step c w (OCopy e target)) in
+  (forall k s, In s (pieces w e k) -> exists y, holds w (ews (E w target)) (euid (E w s)) y /\ (k = KPG -> ekind (E w y) = KPG)) ->
+  forall x, n w <= x < n w' -> ekind (E w' x) <> KType -> ereg (E w' x) = true ->
+    fresh w <= euid (E w' x) /\ forall y, euid (E w y) <> euid (E w' x).
+Proof. exact copy_all_fresh_when_held. Qed.
+Print Assumptions C06_copy_all_fresh_when_held.
+
+(* another workspace: an identifier is only ever kept when it was free in the target *)
+Theorem C06_copy_kept_only_when_free : forall c h e target,
+  let w := run c init h in
+  let w' := fst (step c w (OCopy e target)) in
+  forall x, n w <= x < n w' -> ekind (E w' x) <> KType -> ereg (E w' x) = true -> euid (E w' x) < fresh w ->
+    exists s, In s (pieces w e (ekind (E w' x))) /\ euid (E w' x) = euid (E w s)
+              /\ nohold w (ews (E w target)) (euid (E w s)) (ekind (E w' x)).
+Proof. exact copy_kept_only_when_free. Qed.
+Print Assumptions C06_copy_kept_only_when_free.
+
+(* ------------------------------------------------------------------------------------------------------------------
    non-vacuity *)
 Example C06_nonvacuous_copy :
   forall c, let w := run c init h_copy in
@@ -136,3 +213,14 @@ Example C06_nonvacuous_refused_repaired :
   snd (step repaired w (OCreate 0 true 1 (USame 5))) = Refused
   /\ ech (E w' 1) = ech (E w 1) /\ ech (E w 1) = [5] /\ alive w' 6 = false /\ flat w' 0 = flat w 0.
 Proof. exact refused_creation_repaired_example. Qed.
+
+Example C06_nonvacuous_refused_hypotheses :
+  let w := run repaired init h_dup in
+  owner w 5 /\ ews (E w 5) = 0 /\ ekind (E w 5) = KObject /\ ecls (E w 5) = 2 /\ usable w 1 KGroup = true /\ ews (E w 1) = 0.
+Proof. vm_compute. repeat split; try reflexivity; lia. Qed.
+
+Example C06_nonvacuous_copy_pieces :
+  forall c, let w := run c init [OCreate 0 true 1 UFresh; OData 5 UFresh; OPg 5 [6] UFresh] in
+  pieces w 5 KObject = [5; 6; 7] /\ pieces w 5 KPG = [7]
+  /\ owner w 5 /\ owner w 6 /\ owner w 7 /\ ekind (E w 7) = KPG.
+Proof. intros [[]]; vm_compute; repeat split; try reflexivity; lia. Qed.
